@@ -3,6 +3,7 @@ import Sm9.Proofs.Consts
 import Sm9.Proofs.FinalExp
 import Sm9.Proofs.MillerFrobenius
 import Sm9.Proofs.MillerNaf
+import Sm9.Proofs.ChainIndepSm9
 /-!
 # C17 — the F_q¹² tower engine and final exponentiation on every element
 Ring and **field** structure of Fq4 = Fq2[v]/(v²−u) and Fq12 = Fq4[w]/(w³−v) on the model's own
@@ -138,6 +139,21 @@ theorem signed_chain_miller_textbook (P : G1) (xQ yQ : Fq2) (hQ : yQ * yQ = xQ *
     (k : Nat) (hk : twPt (xQ, yQ) = k • twPt genXY) :
     G2m.miller_loop (⟨xQ, yQ, 1⟩ : G2) P = .ok (-specMillerNaf P.x P.y xQ yQ) :=
   naf_miller_eq_spec_G2 P xQ yQ hQ k hk
+open Miller in
+/-- **both Miller-loop variants agree up to factors that the final exponentiation removes**: for every affine
+    `P` of `E(Fq)` and every multiple `Q ≠ O` of `P2`, the value of the numerator/denominator loop over the
+    signed-digit chain and the value of the prepared loop over the binary chain have the same
+    `(q¹²−1)/r`-th power (chain independence of the Miller function, Proofs/ChainIndep.lean, ChainIndepSm9.lean) -/
+theorem miller_loops_agree_after_final_exp (xP yP : Fq) (hP : yP * yP = xP * xP * xP + b1) (xQ yQ : Fq2)
+    (hQ : yQ * yQ = xQ * xQ * xQ + b2) (k : Nat) (hk : twPt (xQ, yQ) = k • twPt genXY) :
+    ∃ f g : Fq12,
+      G2m.miller_loop (⟨xQ, yQ, 1⟩ : G2) (⟨xP, yP, 1⟩ : G1) = .ok f ∧
+      (do let pr ← G2Prepared.from_ (⟨xQ, yQ, 1⟩ : G2); pr.miller_loop (⟨xP, yP, 1⟩ : G1)) = .ok g ∧
+      f ^ ((q ^ 12 - 1) / r) = g ^ ((q ^ 12 - 1) / r) := by
+  obtain ⟨κ, hκ, hg⟩ := prepared_miller_eq_spec_G2 xP yP xQ yQ hQ k hk
+  refine ⟨_, _, naf_miller_eq_spec_G2 (⟨xP, yP, 1⟩ : G1) xQ yQ hQ k hk, hg, ?_⟩
+  rw [neg_pow, neg_one_pow_final, one_mul, mul_pow, ofFq2_pow_final κ hκ, one_mul]
+  exact specMillerNaf_reduced_eq_specMiller_reduced xP yP hP xQ yQ hQ k hk
 theorem neg_one_killed : (-1 : Fq12) ^ ((q ^ 12 - 1) / r) = 1 := Miller.neg_one_pow_final
 
 end Sm9.C17
